@@ -24,6 +24,7 @@ import (
 type BasePathFS struct {
 	baseFS          avfs.VFS // baseFS is the base file system.
 	basePath        string   // basePath is the absolute path prepended to all files of the base file system.
+	avfs.CurDirFn            // CurDirFn provides the current directory of this file system, relative paths start from it.
 	avfs.FeaturesFn          // FeaturesFn provides features functions to a file system or an identity manager.
 }
 
@@ -31,4 +32,6 @@ type BasePathFS struct {
 type BasePathFile struct {
 	baseFile avfs.File   // baseFile represents an open file descriptor from the base file system.
 	vfs      *BasePathFS // vfs is the base path file system of the file.
+	name     string      // name is the name of the file as presented to OpenFile.
+	absPath  string      // absPath is the absolute path of the file in this file system when it was opened.
 }
